@@ -159,6 +159,20 @@ func spanCheck(src string, toks []token.Token) (kind, detail string) {
 				}
 			}
 		case token.ILLEGAL:
+			if first == '"' || first == '\'' || first == '`' {
+				// an unterminated literal is reported as an ILLEGAL token: it must run to the end of the
+				// source and must not contain an unescaped delimiter
+				if eo != n && eo != n-1 {
+					return "end-position", fmt.Sprintf("token %d %v: unterminated literal must end at the end of the source (%d), end offset %d", i, t, n, eo)
+				}
+				for p := so + 1; p < n; p++ {
+					if src[p] == first && src[p-1] != '\\' {
+						return "string-span", fmt.Sprintf("token %d %v is reported as unterminated but contains an unescaped delimiter at offset %d", i, t, p)
+					}
+				}
+				last = n - 1
+				break
+			}
 			last = so
 			if eo != last && eo != last+1 {
 				return "end-position", fmt.Sprintf("token %d %v: end offset %d, last byte %d", i, t, eo, last)
@@ -310,24 +324,26 @@ type c10Payload struct {
 
 var c10single = map[byte]*core.Violation{}
 
-func c10Violation(lb *lexer.Builder, src []byte, kind string) core.Violation {
-	// fast path (same result as the general shrinker, which tries single elements first): a byte of
-	// the input that fails on its own
-	if len(src) > 1 {
-		for _, b := range src {
-			v, ok := c10single[b]
-			if !ok {
-				if k, _ := lexCheck(lb, string([]byte{b})); k != "" {
-					x := c10Violation(lb, []byte{b}, k)
-					v = &x
-				}
-				c10single[b] = v
+// c10Fast: a byte of the input that fails on its own is the shrunk case (same result as the general
+// shrinker, which tries single elements first).
+func c10Fast(lb *lexer.Builder, src []byte) *core.Violation {
+	for _, b := range src {
+		v, ok := c10single[b]
+		if !ok {
+			if k, _ := lexCheck(lb, string([]byte{b})); k != "" {
+				x := c10Violation(lb, []byte{b}, k)
+				v = &x
 			}
-			if v != nil {
-				return *v
-			}
+			c10single[b] = v
+		}
+		if v != nil {
+			return v
 		}
 	}
+	return nil
+}
+
+func c10Violation(lb *lexer.Builder, src []byte, kind string) core.Violation {
 	// shrink within the byte universe while the same failure kind persists
 	idx := map[byte]int{}
 	for i, b := range lexAlphabet {
@@ -369,8 +385,12 @@ func c10Run(c *core.Ctx) {
 			c.Cur(s)
 			c.Inc("inputs")
 			k, _ := lexCheck(lb, s)
-			if k != "" && c.ShrinkOK(k) {
-				c.Violate(c10Violation(lb, append([]byte{}, buf...), k))
+			if k != "" {
+				if v := c10Fast(lb, buf); v != nil {
+					c.Violate(*v) // a byte that fails on its own: no shrinking needed, no ration used
+				} else if c.ShrinkOK(k) {
+					c.Violate(c10Violation(lb, append([]byte{}, buf...), k))
+				}
 			}
 			if cnt%300007 == 0 {
 				c.Sample(fmt.Sprintf("%q", s))
